@@ -1,7 +1,6 @@
 package main
 
 import (
-	"sync"
 	"bufio"
 	"bytes"
 	"encoding/hex"
@@ -12,6 +11,7 @@ import (
 	"reflect"
 	"strconv"
 	"strings"
+	"sync"
 	"time"
 
 	"github.com/tormoder/fit"
